@@ -6,7 +6,7 @@
    The formulas are tied to the real _divisions() methods by the T-LAYER "divisions" correspondence of the C06 check.
    The *_refuted theorems record what the unfixed code did (defects D8, D10, D20, D35, D36 and seed C06_a). *)
 From DX Require Import Base Plan PlanProofs Repart RepartCount Divisions DivisionsProofs DivisionsExtra GeneratedClassTable ClassTableChecks ClassTableDivisions ClassTableLengthFlags.
-From DX Require Import MinMax MinMaxProofs PySeq GeneratedSource SourceChecks Loc LocProofs.
+From DX Require Import MinMax MinMaxProofs PySeq GeneratedSource SourceChecks Loc LocProofs LocList LocListProofs.
 Local Open Scope nat_scope.
 
 (* the executable test used by the harness on computed partitions means exactly the property *)
@@ -236,3 +236,16 @@ Theorem C06_index_map_nonmonotone_refuted : exists (f : Z -> Z) divs parts,
   truthful divs parts /\ ~ truthful (map f divs) (map_parts f parts).
 Proof. exact map_nonmonotone_refuted. Qed.
 Print Assumptions C06_index_map_nonmonotone_refuted.
+
+(* ---- label lists df.loc[[l1, l2, ...]] ---- *)
+Theorem C06_loc_list_truthful : forall divs parts labels,
+  truthful divs parts -> parts <> [] -> labels <> [] -> labels_in_range divs labels ->
+  truthful (ll_divisions divs labels) (ll_parts divs parts labels).
+Proof. exact ll_truthful. Qed.
+Print Assumptions C06_loc_list_truthful.
+
+Theorem C06_loc_list_unsorted_refuted : exists divs parts labels,
+  truthful divs parts /\ labels_in_range divs labels /\
+  ~ truthful (ll_divisions_unsorted divs labels) (ll_parts divs parts labels).
+Proof. exact ll_unsorted_refuted. Qed.
+Print Assumptions C06_loc_list_unsorted_refuted.
